@@ -58,6 +58,55 @@ structure Case where
 
 def b01 (b : Bool) : Nat := if b then 1 else 0
 
+/-! ### `core` lines (harness/c07_core.c): what load.c hands to a loader through each entry point -/
+
+def entryOf : Nat → Entry
+  | 0 => .path | 1 => .file | 2 => .memory | _ => .callbacks
+
+def backendNo : Backend → Nat
+  | .file => 0 | .mem => 1 | .cb => 2
+
+def strHex (s : String) : String := toHex s.toUTF8.toList
+
+def optHex : Option String → String
+  | none => "NULL"
+  | some s => if s.isEmpty then "-" else strHex s
+
+/-- the harness's recording loader as programs: "R!" n:u8 n bytes -/
+def recTable : List (Loader Unit) :=
+  [{ name := "rec"
+     test := .op (.word .b16) fun
+       | .val v => .op (.read 1 0) fun _ => .ret (v == 0x5221)
+       | _ => .ret false
+     load := fun _ => .op (.word .b16) fun _ => .op (.word .u8) fun
+       | .val n => .op (.read 1 n.toNat) fun
+           | .data r _ _ => .ret (if r = n.toNat then some () else none)
+           | _ => .ret none
+       | _ => .ret none }]
+
+def runOn {α : Type} (bytes : Bytes) (e : Entry) (p : StreamProg α) : α :=
+  match e.backend with
+  | .file => run (File.step bytes) p {}
+  | .mem => run (Mem.step bytes) p {}
+  | .cb => run (Cb.step (memCb bytes {}) bytes.length) p { u := 0 }
+
+def coreCase (pathHex bytesHex : String) : IO Unit := do
+  let bytes := parseHex bytesHex
+  let path := String.ofList ((parseHex pathHex).map fun b => Char.ofNat b.toNat)
+  for i in [0, 1, 2, 3] do
+    let e := entryOf i
+    let (rc, res) := runOn bytes e (loadEntry e path bytes.length recTable)
+    if rc != -3 then
+      let pi := e.pathInfo path bytes.length
+      IO.println s!"seen {i} filename={optHex pi.filename} dirname={optHex pi.dirname} basename={optHex pi.basename} size={pi.size} backend={backendNo e.backend}"
+      IO.println s!"ret {i} {if res.isSome then 0 else -1}"
+    -- a loader that returns 0 without building a module is stopped by load_module's sanity gate (-XMP_ERROR_LOAD)
+    IO.println s!"L {i} {if rc == -3 then -3 else -4}"
+  for i in [0, 1, 2, 3] do
+    let e := entryOf i
+    let (rc, ty) := runOn bytes e (testEntry e recTable)
+    IO.println s!"T {i} {rc} {if ty.isEmpty then "-" else strHex ty}"
+
 partial def loop (h : IO.FS.Stream) (cs : Case) : IO Unit := do
   let line ← h.getLine
   if line.isEmpty then return ()
@@ -69,6 +118,9 @@ partial def loop (h : IO.FS.Stream) (cs : Case) : IO Unit := do
       partialTail := pt == "1"
       chunk := ch.toNat?.getD 0 }
     loop h { bytes := parseHex hex, pol := pol }
+  | ["core", pathHex, bytesHex] =>
+    coreCase pathHex bytesHex
+    loop h cs
   | "op" :: rest =>
     match parseOp rest with
     | none => loop h cs
